@@ -790,6 +790,72 @@ func c13FontInfo(r *run.Run) {
 		})
 }
 
+// c13GlyphCounts: fonts with so many custom glyph names that the string identifiers reach the end of their
+// 16-bit range (391 standard strings + 65145 custom ones): the writer refuses, or the font reads back.
+func c13GlyphCounts(r *run.Run) {
+	counts := []int{60000, 65135}
+	for n := 65138; n <= 65152; n++ {
+		counts = append(counts, n)
+	}
+	counts = append(counts, 65535)
+	r.Explore(explore.Config{Name: "C13.glyph-counts"},
+		"simple fonts with n custom glyph names, n in {60000, 65135, every value 65138..65152 (string identifiers reach 65535), 65535}, and CID-keyed fonts with the same numbers of glyphs: Write returns an error or the font reads back with every name / CID (a file that cannot be read back is never written)",
+		func(c *explore.Ctx) {
+			n := counts[c.Choose(len(counts), "glyphs")]
+			cidKeyed := c.Bool("CID-keyed")
+			f := &cff.Font{FontInfo: c13Info(), Outlines: &cff.Outlines{Private: []*type1.PrivateDict{c13Priv(0)}, FDSelect: func(glyph.ID) int { return 0 }}}
+			if cidKeyed {
+				f.ROS = &cid.SystemInfo{Registry: "Adobe", Ordering: "Identity"}
+				f.FontMatrices = []matrix.Matrix{matrix.Identity}
+			}
+			for i := 0; i < n; i++ {
+				name := fmt.Sprintf("g%05d", i)
+				if i == 0 {
+					name = ".notdef"
+				}
+				if cidKeyed {
+					name = ""
+					f.GIDToCID = append(f.GIDToCID, cid.CID(i))
+				}
+				f.Glyphs = append(f.Glyphs, cff.NewGlyph(name, 500))
+			}
+			if !cidKeyed {
+				f.Encoding = cff.StandardEncoding(f.Glyphs)
+			}
+			desc := fmt.Sprintf("%d glyphs, CID-keyed %v", n, cidKeyed)
+			c.Sample(func() any { return desc })
+			c.Nontrivial()
+			buf := &bytes.Buffer{}
+			var err error
+			if p := guard(func() { err = f.Write(buf) }); p != "" {
+				c.Tag("refused loudly: " + explore.PanicSignature(p))
+				c.Outcome("refused", desc)
+				return
+			}
+			if err != nil {
+				c.Tag("refused: " + err.Error())
+				c.Outcome("refused", desc)
+				return
+			}
+			c.Outcome(buf.Len(), desc)
+			g, err := cff.Read(bytes.NewReader(buf.Bytes()))
+			if err != nil {
+				c.Fail("C13.read", "glyph counts", "Read(Write(F)) fails: %v (%s)", err, desc)
+				return
+			}
+			if len(g.Glyphs) != n {
+				c.Fail("C13.glyphs", "glyph counts", "%d glyphs come back as %d (%s)", n, len(g.Glyphs), desc)
+				return
+			}
+			for i := range f.Glyphs {
+				if g.Glyphs[i].Name != f.Glyphs[i].Name || cidKeyed && g.GIDToCID[i] != f.GIDToCID[i] {
+					c.Fail("C13.names", "glyph counts", "glyph %d comes back as %q (%s)", i, g.Glyphs[i].Name, desc)
+					return
+				}
+			}
+		})
+}
+
 func c13Numbers(r *run.Run) {
 	ints := []int32{0, 107, 108, -107, -108, 1131, 1132, -1131, -1132, 32767, 32768, -32768, -32769, 1<<31 - 1, -1 << 31}
 	// (1/1005, 1/992: a font matrix for 1005 or 992 units per em is close to the default 0.001 but not equal to it)
@@ -958,6 +1024,7 @@ func init() {
 		c13Runs(r)
 		c13AssembledDicts(r)
 		c13Predefined(r)
+		c13GlyphCounts(r)
 		c13FontInfo(r)
 		c13Numbers(r)
 		c13DeltaArrays(r)
